@@ -400,6 +400,21 @@ func peEntries(h *harness) []*entry {
 	f := newPEFixture()
 	pdSeeds := seedsOf("pd-basic", pdBasic, "pd-pick", pdPick, "pd-nested", pdNested)
 	oddities := seedsOf("pd-pick-min-only", pdPickMinOnly, "pd-pick-bare", pdPickBare, "pd-array-pattern", pdArrayPattern, "pd-backtrack", pdBacktrack)
+	// extreme but schema-valid numbers ("type":"integer","minimum":0) in the submission requirements of a definition the wallet can fulfil (the selection is reached),
+	// and definitions that ask for nothing
+	for _, n := range []string{"1000000000000000000", "9223372036854775807", "4294967296", "2147483648", "0"} {
+		for _, member := range []string{"max", "count", "min"} {
+			req := fmt.Sprintf(`{"rule":"pick","min":1,%q:%s,"from":"A"}`, member, n)
+			if member != "max" {
+				req = fmt.Sprintf(`{"rule":"pick",%q:%s,"from":"A"}`, member, n)
+			}
+			oddities = append(oddities, seedsOf("pd-pick-"+member+"-"+n, `{"id":"pd-extreme","submission_requirements":[`+req+`,{"rule":"pick","min":0,"max":`+n+`,"from_nested":[{"rule":"all","from":"B"},{"rule":"pick","min":0,"max":`+n+`,"from":"B"}]}],
+"input_descriptors":[{"id":"org","group":["A"],"constraints":{"fields":[{"path":["$.type"],"filter":{"type":"string","const":"NutsOrganizationCredential"}}]}},
+ {"id":"any","group":["A","B"],"constraints":{"fields":[{"path":["$.issuer"],"filter":{"type":"string","pattern":"^did:web:(.+)$"}}]}}]}`)...)
+		}
+	}
+	oddities = append(oddities, seedsOf("pd-no-descriptors", `{"id":"pd-none","input_descriptors":[]}`,
+		"pd-no-descriptors-optional-requirement", `{"id":"pd-none-2","submission_requirements":[{"rule":"pick","min":0,"from":"A"}],"input_descriptors":[]}`)...)
 	// the oddities are schema-valid inputs, not known-good instances: emitted as mutants of class "oddity"
 	genPD := func(h *harness, e *entry, emit func(input)) {
 		for _, o := range oddities {
@@ -407,7 +422,7 @@ func peEntries(h *harness) []*entry {
 		}
 		genJSON(pdSeeds, false, plainWrap)(h, e, emit)
 	}
-	parsed := &entry{name: "pe.Definition.Parse-Match", gen: genPD,
+	parsed := &entry{name: "pe.Definition.Parse-Match", gen: genPD, isolate: true,
 		call: func(in input) error {
 			pd, err := pe.ParsePresentationDefinition(in.data)
 			if err != nil {
@@ -416,7 +431,7 @@ func peEntries(h *harness) []*entry {
 			return f.usePD(pd)
 		}}
 	// the wallet side of OpenID4VP / the s2s flow fetches the verifier's definition with a plain json.Unmarshal (auth/client/iam: PresentationDefinition)
-	remote := &entry{name: "pe.Definition.Unmarshal-Match", gen: genPD,
+	remote := &entry{name: "pe.Definition.Unmarshal-Match", gen: genPD, isolate: true,
 		call: func(in input) error {
 			var pd pe.PresentationDefinition
 			if err := json.Unmarshal(in.data, &pd); err != nil {
@@ -496,6 +511,19 @@ func peEntries(h *harness) []*entry {
 	if err != nil {
 		h.r.Fatalf("seed envelope array: %v", err)
 	}
+	// what a remote party can always send: an envelope without presentations, also to a verifier whose definition asks for nothing
+	pdNone, _ := pe.ParsePresentationDefinition([]byte(`{"id":"pd-none","input_descriptors":[]}`))
+	pdOptional, _ := pe.ParsePresentationDefinition([]byte(`{"id":"pd-optional","submission_requirements":[{"rule":"pick","min":0,"from":"A"}],"input_descriptors":[]}`))
+	envEmpty, err := pe.ParseEnvelope([]byte(`[]`))
+	if err != nil || pdNone == nil || pdOptional == nil {
+		h.r.Fatalf("seed envelope without presentations / definitions without descriptors: %v", err)
+	}
+	type envPD struct {
+		env *pe.Envelope
+		pd  *pe.PresentationDefinition
+	}
+	emptyCombos := []envPD{{envEmpty, pdNone}, {envEmpty, pdOptional}, {envEmpty, pdSingle}, {envLD, pdNone}}
+	emptySub, _ := pe.ParsePresentationSubmission([]byte(`{"id":"s0","definition_id":"pd-none","descriptor_map":[]}`))
 	subSeeds := seedsOf(
 		"submission-flat", `{"id":"s1","definition_id":"pd-sub","descriptor_map":[{"id":"org","format":"ldp_vc","path":"$.verifiableCredential[0]"},{"id":"other","format":"ldp_vc","path":"$.verifiableCredential[1]"}]}`,
 		"submission-nested", `{"id":"s2","definition_id":"pd-single","descriptor_map":[{"id":"org","format":"ldp_vp","path":"$[0]","path_nested":{"id":"org","format":"ldp_vc","path":"$.verifiableCredential"}}]}`,
@@ -520,6 +548,10 @@ func peEntries(h *harness) []*entry {
 					}
 				}
 			}
+			for _, c := range emptyCombos {
+				_, _ = s.Resolve(*c.env)
+				_, _ = s.Validate(*c.env, *c.pd)
+			}
 			if ok {
 				return nil
 			}
@@ -543,6 +575,9 @@ func peEntries(h *harness) []*entry {
 					}
 				}
 			}
+			for _, c := range emptyCombos {
+				_, _ = s.Validate(*c.env, *c.pd)
+			}
 			if ok {
 				return nil
 			}
@@ -557,6 +592,9 @@ func peEntries(h *harness) []*entry {
 		}
 		_, e1 := goodSubFlat.Validate(*env, *pdForSubmission)
 		_, e2 := goodSubNested.Validate(*env, *pdSingle)
+		// the same envelope sent to verifiers whose definition asks for nothing, with a submission that maps nothing (does not count as acceptance of the envelope)
+		_, _ = emptySub.Validate(*env, *pdNone)
+		_, _ = emptySub.Validate(*env, *pdOptional)
 		if e1 == nil || e2 == nil {
 			return nil
 		}
